@@ -184,3 +184,10 @@ Theorem C19_refusal_has_reason : forall c s m s' evs e,
   zombie s = true \/ (c_dup c = true /\ q_contains s m = true).
 Proof. exact refusal_has_reason. Qed.
 Print Assumptions C19_refusal_has_reason.
+
+(* the regenerated table pins the test under which Irc.die() closes the driver at
+   once ("not self.afterConnect"): the model's die, hence C19_drain_before_die,
+   is about the current source *)
+Theorem C19_die_test_pinned : die_test_pinned = true.
+Proof. vm_compute. reflexivity. Qed.
+Print Assumptions C19_die_test_pinned.
